@@ -5,25 +5,25 @@ set -u
 d="$1"; dest="$2"; democmd="$3"; testcmd="$4"
 wt=/tmp/wt-confirm-$$
 unset GOFLAGS
-git -C /repo worktree add --detach "$wt" HEAD -q || exit 2
+git -C /repo worktree add --detach "$wt" "${SEED_BASE:-HEAD}" -q || exit 2
 cleanup() { git -C /repo worktree remove --force "$wt"; }
 trap cleanup EXIT
 cd "$wt"
 demofile=$(ls "$d"/demo/* | head -1)
 echo "--- [1] demo WITHOUT the change (must pass)"
 mkdir -p "$(dirname "$dest")"; cp "$demofile" "$dest"
-( eval "timeout 600 $democmd" ) > /tmp/confirm.$$.log 2>&1; rc_without=$?
+( timeout 900 bash -c "$democmd" ) > /tmp/confirm.$$.log 2>&1; rc_without=$?
 tail -3 /tmp/confirm.$$.log
 echo "--- [2] apply patch, build"
 rm -f "$dest"
 git apply "$d/patch.diff" || { echo "APPLY FAILED"; exit 1; }
 go build ./... && (cd cmd/application && go build ./...) && (cd cmd/registration-server && go build ./...) || { echo "BUILD FAILED"; exit 1; }
 echo "--- [3] existing tests WITH the change (must pass)"
-( eval "timeout 1500 $testcmd" ) > /tmp/confirm.$$.log 2>&1; rc_tests=$?
+( timeout 1500 bash -c "$testcmd" ) > /tmp/confirm.$$.log 2>&1; rc_tests=$?
 grep -E "^(--- FAIL|FAIL|ok|panic)" /tmp/confirm.$$.log | head -20
 echo "--- [4] demo WITH the change (must fail)"
 cp "$demofile" "$dest"
-( eval "timeout 600 $democmd" ) > /tmp/confirm.$$.log 2>&1; rc_with=$?
+( timeout 900 bash -c "$democmd" ) > /tmp/confirm.$$.log 2>&1; rc_with=$?
 grep -E "^(--- FAIL|FAIL|ok|panic)" /tmp/confirm.$$.log | head -5
 rm -f /tmp/confirm.$$.log
 echo "RESULT demo_without_rc=$rc_without tests_with_rc=$rc_tests demo_with_rc=$rc_with"
